@@ -391,12 +391,20 @@ class _Clock:
         self.loop = loop
 
     def __enter__(self):
+        import async_upnp_client.profiles.profile as pmod
         self.old = _time.monotonic
         _time.monotonic = self.loop.clock
+        # a module that did `from time import monotonic` keeps its own reference: redirect that too
+        self.pmod = pmod
+        self.pold = getattr(pmod, "monotonic", None)
+        if self.pold is not None:
+            pmod.monotonic = self.loop.clock
         return self
 
     def __exit__(self, *a):
         _time.monotonic = self.old
+        if self.pold is not None:
+            self.pmod.monotonic = self.pold
 
 
 def run_schedule(case, sched=None, policy=None, max_len=90):
@@ -651,7 +659,7 @@ class Plugin:
     def generate(self, rng, tier):
         thorough = tier == "thorough"
         cases = []
-        n_online = 2600 if thorough else 260
+        n_online = 6000 if thorough else 700
         for i in range(n_online):
             dev = self._device(rng)
             style = rng.choice(["any", "any", "short", "long"])
@@ -663,7 +671,7 @@ class Plugin:
                 kw["horizon"] = rng.choice([30, 100, 500, 1000, 3000])
             cases.append(self._online(rng, dev, max_len=rng.choice([40, 60, 90]), **kw))
         # unsubscribe at every cut point of base runs (exhaustive over the position)
-        n_base = 30 if thorough else 4
+        n_base = 60 if thorough else 8
         for _ in range(n_base):
             dev = self._device(rng, n_int=rng.choice([1, 2, 3, 3]))
             base = self._online(rng, dev, max_len=40, auto=True, fail_p=rng.choice([0.0, 0.2]),
@@ -672,9 +680,9 @@ class Plugin:
             for pos in range(1, len(base["sched"]) + 1):
                 cases.append(self._inject_unsub(rng, base, pos))
         self.last_exhaustive = True
-        for _ in range(900 if thorough else 90):
+        for _ in range(2000 if thorough else 200):
             cases.append(self._raw_case(rng))
-        for _ in range(500 if thorough else 50):
+        for _ in range(1200 if thorough else 120):
             cases.append(self._two_subscribes(rng))
         return cases
 
